@@ -788,3 +788,127 @@ Proof.
   rewrite (H f (or_introl eq_refl)). rewrite IH; [reflexivity|].
   intros g Hg. apply H. right. exact Hg.
 Qed.
+
+(* ------------------------------------------------------------------ descent along the chain *)
+
+(* consecutive programs of a chain are related as Function.with_edits demands
+   (log.source is self.ast; the new Function holds log.result), and every
+   reported log is faithful to the program it was produced from *)
+Fixpoint chain_wf (chain : list func) : Prop :=
+  match chain with
+  | [] => True
+  | f :: r =>
+      chain_wf r /\
+      match r with
+      | [] => True
+      | g :: _ =>
+          match f_log f with
+          | None => True
+          | Some lg => l_src lg = f_ast g /\ l_res lg = f_ast f /\ l_rtree lg = f_tree f
+                       /\ log_faithful lg (f_tree g)
+          end
+      end
+  end.
+
+Definition log_new_labels (lg : elog) : list Z := flat_map (fun e => map label (enew e)) (l_edits lg).
+
+Definition new_labels (chain : list func) : list Z :=
+  flat_map (fun f => match f_log f with Some lg => log_new_labels lg | None => [] end) chain.
+
+Fixpoint find_root (chain : list func) (fn : Z) : option func :=
+  match chain with
+  | [] => None
+  | f :: r => if f_ast f =? fn then Some f else find_root r fn
+  end.
+
+(* every intermediate image is a single statement (a statement replaced by a
+   region is followed no further by this theorem) *)
+Fixpoint stmt_only (chain : list func) (c0 : cursor) : Prop :=
+  match chain with
+  | [] => True
+  | f :: r =>
+      if f_ast f =? cursor_fn c0 then True
+      else stmt_only r c0 /\
+           match chain_forward r c0 with Ok (CBlock _ _ _ _) | Ok (CExpr _ _ _) => False | _ => True end
+  end.
+
+(* what the final cursor names: label L, or a label some pass introduced *)
+Definition tracks (L : Z) (news : list Z) (f : func) (c : cursor) : Prop :=
+  match c with
+  | CStmt fn p =>
+      fn = f_ast f /\ exists s, resolve_stmt (f_tree f) p = Ok s /\ (label s = L \/ In (label s) news)
+  | CBlock fn b lo hi =>
+      fn = f_ast f /\ exists blk, resolve_block (f_tree f) b = Ok blk /\
+        forall s, In s (region blk lo hi) -> In (label s) news
+  | CExpr _ _ _ => False
+  end.
+
+Lemma new_labels_cons f r l : In l (new_labels r) -> In l (new_labels (f :: r)).
+Proof. intros H. unfold new_labels. simpl. apply in_or_app. right. exact H. Qed.
+
+Lemma new_labels_head f r lg e s :
+  f_log f = Some lg -> In e (l_edits lg) -> In s (enew e) -> In (label s) (new_labels (f :: r)).
+Proof.
+  intros Hl He Hs. unfold new_labels. simpl. apply in_or_app. left. rewrite Hl.
+  unfold log_new_labels. apply in_flat_map. exists e. split; [exact He|]. apply in_map. exact Hs.
+Qed.
+
+(* PARTIAL with respect to the property text: steps whose image is a region
+   (`_forward_region`) are excluded by `stmt_only`; they are covered by the
+   correspondence only. *)
+Theorem chain_descendant_partial : forall chain fn0 p0 g s0 c',
+  chain_wf chain ->
+  find_root chain fn0 = Some g -> resolve_stmt (f_tree g) p0 = Ok s0 ->
+  stmt_only chain (CStmt fn0 p0) ->
+  chain_forward chain (CStmt fn0 p0) = Ok c' ->
+  match chain with
+  | f :: _ => tracks (label s0) (new_labels chain) f c'
+  | [] => False
+  end.
+Proof.
+  induction chain as [|f r IH]; intros fn0 p0 g s0 c' Hwf Hroot Hres Hso Hfw.
+  - discriminate.
+  - rewrite forward_compose in Hfw. simpl cursor_fn in Hfw. simpl in Hroot, Hso.
+    destruct (Z.eqb_spec (f_ast f) fn0) as [E|E].
+    + inversion Hfw; subst c'. inversion Hroot; subst g. simpl.
+      split; [symmetry; exact E|]. exists s0. split; [exact Hres|]. left. reflexivity.
+    + destruct Hso as [Hso Hkind]. destruct Hwf as [Hwfr Hlink].
+      destruct (chain_forward r (CStmt fn0 p0)) as [c1|x] eqn:E1; [|discriminate].
+      specialize (IH fn0 p0 g s0 c1 Hwfr Hroot Hres Hso E1).
+      destruct r as [|g' r']; [contradiction|].
+      simpl in Hfw. destruct (f_log f) as [lg|] eqn:El; [|discriminate].
+      destruct Hlink as (Hsrc & Hrs & Hrt & Hfaith).
+      destruct c1 as [fn1 p1|fn1 b1 lo1 hi1|fn1 p1 sfx]; [|contradiction|contradiction].
+      destruct IH as (Hfn1 & s1 & Hr1 & Hlab).
+      simpl forward in Hfw.
+      pose proof (forward_descendant lg (f_tree g') fn1 p1 s1 Hfaith Hr1) as D.
+      rewrite Hfw in D.
+      destruct c' as [fr p'|fr b lo hi|fr p' sfx]; [| |contradiction].
+      * destruct D as (-> & s' & Hrs' & Hcase). cbn [tracks]. split; [exact Hrs|].
+        exists s'. rewrite <- Hrt. split; [exact Hrs'|].
+        destruct Hcase as [(_ & Hl & _)|(e & He & _ & Hn)].
+        -- rewrite Hl. destruct Hlab as [Hlab|Hlab]; [left; exact Hlab|].
+           right. apply new_labels_cons. exact Hlab.
+        -- right. apply (new_labels_head f (g' :: r') lg e s' El He). rewrite Hn. left. reflexivity.
+      * destruct D as (-> & e & blk & He & _ & Hb & Hreg & _). cbn [tracks]. split; [exact Hrs|].
+        exists blk. rewrite <- Hrt. split; [exact Hb|].
+        intros s Hs. rewrite Hreg in Hs. apply (new_labels_head f (g' :: r') lg e s El He Hs).
+Qed.
+
+(* ------------------------------------------------------------------ expression cursors *)
+(* an expression cursor forwards only under `exprs_preserved`, outside
+   `exprs_rewritten`, and only while its statement was not replaced; it then
+   hangs off the statement's image *)
+Theorem expr_cursor_rule lg fn p sfx c' :
+  forward lg (CExpr fn p sfx) = Ok c' ->
+  fn = l_src lg /\ l_preserved lg = true /\ existsb (spath_eqb p) (l_dirty lg) = false /\
+  exists b i, forward_stmt (l_edits lg) p = Ok (b, i, None) /\ c' = CExpr (l_res lg) (b, i) sfx.
+Proof.
+  simpl. unfold forward_expr.
+  destruct (Z.eqb_spec fn (l_src lg)) as [E|E]; simpl; [|discriminate].
+  destruct (l_preserved lg); simpl; [|discriminate].
+  destruct (existsb (spath_eqb p) (l_dirty lg)); [discriminate|].
+  destruct (forward_stmt (l_edits lg) p) as [[[b i] [e|]]|x]; try discriminate.
+  destruct (resolve_stmt (l_rtree lg) (b, i)); [|discriminate].
+  intros H. inversion H; subst. repeat split; try assumption. exists b, i. split; reflexivity.
+Qed.
